@@ -799,13 +799,16 @@ func c03AddrClassifier(c *core.Ctx) {
 	if !c.RequireCount("R-C03-5", "writes of Server.addrIsHostName", nWrites, 1) {
 		return
 	}
-	// every NewLoadBalancer call is preceded by a loop classifying every server handed to it
+	// every NewLoadBalancer call receives servers that have all been classified: by a covering
+	// loop before the call (here, in a helper, or in every caller that hands the servers in), or
+	// — for a field of the pool's spec — by a covering loop where the pool is constructed
+	k := &c03cls{c: c, writers: writers}
 	sites := 0
 	eachFunc(c, func(pkg *packages.Package, fd *ast.FuncDecl) {
 		if relPkg(pkg.PkgPath) != c03px {
 			return
 		}
-		f := flow.NewFunc(pkg, fd)
+		f := funcOf(pkg, fd)
 		lbCalls := callsTo(f, fd.Body, false, c03px+".NewLoadBalancer")
 		if len(lbCalls) == 0 {
 			return
@@ -819,121 +822,15 @@ func c03AddrClassifier(c *core.Ctx) {
 				c.Undecide("R-C03-5", cons, pos(c, lb), "unexpected argument count")
 				continue
 			}
-			sc := newC03scope(f, 2)
-			var sv types.Object
-			type cand struct {
-				rs   ast.Stmt
-				coll ast.Expr
-				call *ast.CallExpr
-				it   *c03iter
+			r := k.at(f, lb, lb.Args[1], 0)
+			switch r.verdict {
+			case "ok":
+				c.Discharge("R-C03-5", cons, pos(c, lb), r.why)
+			case "bad":
+				c.Violate("R-C03-5", cons, pos(c, r.at), r.why, witness(r.st)...)
+			default:
+				c.Undecide("R-C03-5", cons, pos(c, r.at), r.why)
 			}
-			var cands []*cand
-			var res *flow.Result
-			c03with(sc, func() {
-				sv = c03rootOf(f, lb.Args[1])
-			})
-			if _, isVar := sv.(*types.Var); !isVar {
-				c.Undecide("R-C03-5", cons, pos(c, lb), "servers argument is not a variable")
-				continue
-			}
-			c03with(sc, func() {
-				// candidate loops: a loop over every element of sv whose body hands the element to
-				// a writer of addrIsHostName (as receiver or argument) — here or in a helper
-				for _, g := range sc.fns {
-					for _, lp := range c03loops(f, g.Body) {
-						if c03rootOf(f, lp.coll) != sv {
-							continue
-						}
-						if _, isIdent := ast.Unparen(lp.coll).(*ast.Ident); !isIdent {
-							continue
-						}
-						for _, call := range calls(lp.body, false) {
-							fo, ok := f.Callee(call).(*types.Func)
-							if !ok || !writers[fo] {
-								continue
-							}
-							elem := false
-							if sel, ok := ast.Unparen(call.Fun).(*ast.SelectorExpr); ok && lp.isElem(f, sel.X) {
-								elem = true
-							}
-							for _, a := range call.Args {
-								if lp.isElem(f, a) {
-									elem = true
-								}
-							}
-							if elem {
-								cands = append(cands, &cand{rs: lp.stmt, coll: lp.coll, call: call, it: newC03iter(f, lp.stmt, nil)})
-								break
-							}
-						}
-					}
-				}
-				res = analyze(c, f, flow.Config{
-					NoHavoc: true,
-					Inline:  sc.inline(),
-					Track:   c03trackEmptiness,
-					AfterAssume: func(st *flow.State, cond ast.Expr, outcome bool) {
-						// a guard hoisted out of the loop: no servers, nothing to classify
-						if c03emptyColl(f, st, lb.Args[1]) {
-							st.Set("ev:classified", flow.True)
-						}
-						for _, cd := range cands {
-							if c03emptyColl(f, st, cd.coll) {
-								st.Set("ev:classified", flow.True)
-							}
-						}
-					},
-					OnBlock: func(st *flow.State, b *cfg.Block) {
-						for _, cd := range cands {
-							cd.it.block(st, b)
-							if c03atHead(b, cd.rs) {
-								st.Set("ev:classified", flow.True)
-							}
-						}
-					},
-					OnCall: func(st *flow.State, call *ast.CallExpr, callee types.Object, deferred bool) {
-						for _, cd := range cands {
-							if call == cd.call {
-								cd.it.mark(st)
-							}
-						}
-					},
-					OnNode: func(st *flow.State, n ast.Node) {
-						if as, ok := n.(*ast.AssignStmt); ok {
-							for _, l := range as.Lhs {
-								if id, ok := ast.Unparen(l).(*ast.Ident); ok && c03obj(f, id) == sv {
-									st.Set("ev:classified", flow.Unknown)
-								}
-							}
-						}
-					},
-				})
-			})
-			if res == nil {
-				continue
-			}
-			var bad *flow.State
-			why := "NewLoadBalancer is reachable with servers whose address has not been classified (addrIsHostName keeps its zero value false): host-named servers are treated as IP-addressed and receive the client's Host instead of their own"
-			for _, st := range res.At[lb] {
-				if !st.Is("ev:classified", flow.True) {
-					bad = st
-					break
-				}
-			}
-			var at ast.Node = lb
-			if bad == nil {
-				for _, cd := range cands {
-					if early := breaksOut(f, cd.rs, ""); len(early) > 0 {
-						bad, at = res.At[lb][0], early[0]
-						why = "the classification loop can be left early: later servers keep addrIsHostName=false and receive the client's Host although they are host-named"
-					} else if cd.it.bad != nil {
-						bad, at = cd.it.bad, cd.rs
-						why = "an iteration of the classification loop skips the address classifier: that server keeps addrIsHostName=false and receives the client's Host although it is host-named"
-					}
-				}
-			}
-			c.Check(bad == nil && len(res.At[lb]) > 0, "R-C03-5", cons, pos(c, at),
-				sprintf("%d state(s) reach NewLoadBalancer, all after an exhaustive classification loop over its servers argument", len(res.At[lb])), why, witness(bad)...)
 		}
 	})
 	c.RequireCount("R-C03-5", "NewLoadBalancer call sites in "+c03px, sites, 1)
@@ -1110,4 +1007,420 @@ func c03callersStore(c *core.Ctx, builder *flow.Func, out *types.Var) (int, bool
 		}
 	}
 	return sites, sites > 0 && okAll
+}
+
+// c03cls decides "the servers handed to a call have all been classified".
+type c03cls struct {
+	c       *core.Ctx
+	writers map[*types.Func]bool
+	fieldOK map[*types.Var]string
+}
+
+type c03clsResult struct {
+	verdict string // ok | bad | undecided
+	st      *flow.State
+	at      ast.Node
+	why     string
+}
+
+// writerOnElem: call hands the loop's current element to a writer of the flag.
+func (k *c03cls) writerOnElem(f *flow.Func, lp *c03loop, call *ast.CallExpr) bool {
+	fo, ok := f.Callee(call).(*types.Func)
+	if !ok || !k.writers[fo.Origin()] && !k.writers[fo] {
+		return false
+	}
+	if sel, ok := ast.Unparen(call.Fun).(*ast.SelectorExpr); ok && lp.isElem(f, sel.X) {
+		return true
+	}
+	for _, a := range call.Args {
+		if lp.isElem(f, a) {
+			return true
+		}
+	}
+	return false
+}
+
+// at: when `call` is reached in f, every element of the collection `arg` has been classified.
+func (k *c03cls) at(f *flow.Func, call *ast.CallExpr, arg ast.Expr, depth int) c03clsResult {
+	c := k.c
+	sc := newC03scope(f, 2)
+	type cand struct {
+		rs   ast.Stmt
+		coll ast.Expr
+		call *ast.CallExpr
+		it   *c03iter
+	}
+	var cands []*cand
+	var res *flow.Result
+	var sv types.Object
+	var field *types.Var
+	anyWriter := false
+	c03with(sc, func() {
+		resolved, _ := c03resolveLocal(f, arg)
+		if fv := c03fieldOf(f, resolved); fv != nil {
+			field = fv
+		} else {
+			sv = c03rootOf(f, arg)
+		}
+		same := func(coll ast.Expr) bool {
+			rc, _ := c03resolveLocal(f, coll)
+			if field != nil {
+				return c03fieldOf(f, rc) == field
+			}
+			_, isIdent := ast.Unparen(coll).(*ast.Ident)
+			return isIdent && sv != nil && c03rootOf(f, coll) == sv
+		}
+		for _, g := range sc.fns {
+			for _, cl := range calls(g.Body, true) {
+				if fo, ok := f.Callee(cl).(*types.Func); ok && (k.writers[fo] || k.writers[fo.Origin()]) {
+					anyWriter = true
+				}
+			}
+			for _, lp := range c03loops(f, g.Body) {
+				if !same(lp.coll) {
+					continue
+				}
+				for _, cl := range calls(lp.body, false) {
+					if k.writerOnElem(f, lp, cl) {
+						cands = append(cands, &cand{rs: lp.stmt, coll: lp.coll, call: cl, it: newC03iter(f, lp.stmt, nil)})
+						break
+					}
+				}
+			}
+		}
+		res = analyze(c, f, flow.Config{
+			NoHavoc: true,
+			Inline:  sc.inline(),
+			Track:   c03trackEmptiness,
+			AfterAssume: func(st *flow.State, cond ast.Expr, outcome bool) {
+				// a guard hoisted out of the loop: no servers, nothing to classify
+				if c03emptyColl(f, st, arg) {
+					st.Set("ev:classified", flow.True)
+				}
+				for _, cd := range cands {
+					if c03emptyColl(f, st, cd.coll) {
+						st.Set("ev:classified", flow.True)
+					}
+				}
+			},
+			OnBlock: func(st *flow.State, b *cfg.Block) {
+				for _, cd := range cands {
+					cd.it.block(st, b)
+					if c03atHead(b, cd.rs) {
+						st.Set("ev:classified", flow.True)
+					}
+				}
+			},
+			OnCall: func(st *flow.State, cl *ast.CallExpr, callee types.Object, deferred bool) {
+				for _, cd := range cands {
+					if cl == cd.call {
+						cd.it.mark(st)
+					}
+				}
+			},
+			OnNode: func(st *flow.State, n ast.Node) {
+				if as, ok := n.(*ast.AssignStmt); ok && sv != nil {
+					for _, l := range as.Lhs {
+						if id, ok := ast.Unparen(l).(*ast.Ident); ok && c03obj(f, id) == sv {
+							st.Set("ev:classified", flow.Unknown)
+						}
+					}
+				}
+			},
+		})
+	})
+	if res == nil {
+		return c03clsResult{verdict: "undecided", at: call, why: "analysis failed"}
+	}
+	states := res.At[call]
+	if len(states) == 0 {
+		return c03clsResult{verdict: "undecided", at: call, why: "the call is not reached by the analysis"}
+	}
+	var unclassified *flow.State
+	for _, st := range states {
+		if !st.Is("ev:classified", flow.True) {
+			unclassified = st
+			break
+		}
+	}
+	if unclassified == nil {
+		for _, cd := range cands {
+			if early := breaksOut(f, cd.rs, ""); len(early) > 0 {
+				return c03clsResult{"bad", states[0], early[0], "the classification loop can be left early: later servers keep addrIsHostName=false and receive the client's Host although they are host-named"}
+			}
+			if cd.it.bad != nil {
+				return c03clsResult{"bad", cd.it.bad, cd.rs, "an iteration of the classification loop skips the address classifier: that server keeps addrIsHostName=false and receives the client's Host although it is host-named"}
+			}
+		}
+		return c03clsResult{verdict: "ok", at: call, why: sprintf("%d state(s) reach the call in %s, all after an exhaustive classification loop over the servers", len(states), c03fnName(f))}
+	}
+	notClassified := "NewLoadBalancer is reachable with servers whose address has not been classified (addrIsHostName keeps its zero value false): host-named servers are treated as IP-addressed and receive the client's Host instead of their own"
+	// (a) a field classified where its owner is constructed
+	if field != nil {
+		if how := k.fieldClassified(f, field); how != "" {
+			return c03clsResult{verdict: "ok", at: call, why: how}
+		}
+		return c03clsResult{"bad", unclassified, call, notClassified + " (the servers come from field " + field.Name() + ", which no constructor classifies)"}
+	}
+	// (b) a parameter: the callers hand the servers in
+	fd, isDecl := f.Node.(*ast.FuncDecl)
+	idx := -1
+	if isDecl && sv != nil {
+		i := 0
+		for _, fl := range fd.Type.Params.List {
+			for _, id := range fl.Names {
+				if f.Info.Defs[id] == sv {
+					idx = i
+				}
+				i++
+			}
+		}
+	}
+	if idx >= 0 && depth < 2 {
+		callee := f.Info.Defs[fd.Name]
+		n := 0
+		worst := c03clsResult{verdict: "ok", at: call}
+		for _, file := range f.Pkg.Syntax {
+			for _, d := range file.Decls {
+				cfd, ok := d.(*ast.FuncDecl)
+				if !ok || cfd.Body == nil || cfd == fd {
+					continue
+				}
+				g := funcOf(f.Pkg, cfd)
+				for _, cl := range calls(cfd.Body, true) {
+					fo, ok := g.Callee(cl).(*types.Func)
+					if !ok || types.Object(fo.Origin()) != callee || idx >= len(cl.Args) {
+						continue
+					}
+					n++
+					// calls inside function literals (goroutines) are analysed in their literal
+					unit := g
+					for _, u := range c03units(g) {
+						if u != g && contains(u.Node, cl) {
+							unit = u
+						}
+					}
+					r := k.at(unit, cl, cl.Args[idx], depth+1)
+					if r.verdict == "bad" && worst.verdict != "bad" {
+						r.why = "servers handed in by " + c03fnName(g) + " are not classified: " + r.why
+						worst = r
+					} else if r.verdict == "undecided" && worst.verdict == "ok" {
+						worst = r
+					}
+				}
+			}
+		}
+		if n > 0 {
+			if worst.verdict == "ok" {
+				worst.why = sprintf("%s does not classify its servers parameter itself; each of its %d call site(s) hands in servers that are classified before the call or at construction", c03fnName(f), n)
+			}
+			return worst
+		}
+	}
+	// (c) a local collection built element by element: every value it is assigned is empty, a
+	// field classified at construction, or append(itself, e…) with each e classified before
+	if sv != nil && anyWriter {
+		how, bad, at := k.builtFromClassified(f, sc, sv)
+		if how != "" {
+			return c03clsResult{verdict: "ok", at: call, why: how}
+		}
+		if bad != nil {
+			return c03clsResult{"bad", bad, at, "a server is appended to the collection handed to the load balancer without having been classified on this path (addrIsHostName keeps its zero value false): a host-named server is treated as IP-addressed and receives the client's Host instead of its own"}
+		}
+	}
+	// (d) a local the analysis cannot follow
+	if anyWriter {
+		return c03clsResult{"undecided", unclassified, call, "the servers are classified in a way the analysis does not follow (no covering loop over the collection handed to the load balancer)"}
+	}
+	return c03clsResult{"bad", unclassified, call, notClassified}
+}
+
+// fieldClassified: some function of the package runs, as a top-level statement, a covering
+// loop over the given struct field that classifies every element (the constructor of the
+// pool classifying the servers of its spec).
+func (k *c03cls) fieldClassified(f *flow.Func, field *types.Var) string {
+	if k.fieldOK == nil {
+		k.fieldOK = map[*types.Var]string{}
+	}
+	if how, ok := k.fieldOK[field]; ok {
+		return how
+	}
+	how := ""
+	for _, file := range f.Pkg.Syntax {
+		for _, d := range file.Decls {
+			fd, ok := d.(*ast.FuncDecl)
+			if !ok || fd.Body == nil || how != "" {
+				continue
+			}
+			g := funcOf(f.Pkg, fd)
+			for _, stmt := range fd.Body.List {
+				lp := c03loopOf(g, stmt)
+				if lp == nil {
+					continue
+				}
+				rc, _ := c03resolveLocal(g, lp.coll)
+				if c03fieldOf(g, rc) != field {
+					continue
+				}
+				var wcall *ast.CallExpr
+				for _, cl := range calls(lp.body, false) {
+					if k.writerOnElem(g, lp, cl) {
+						wcall = cl
+					}
+				}
+				if wcall == nil || len(breaksOut(g, lp.stmt, "")) > 0 {
+					continue
+				}
+				it := newC03iter(g, lp.stmt, nil)
+				res := analyze(k.c, g, flow.Config{
+					NoHavoc: true,
+					Track:   func(string) bool { return false },
+					OnBlock: func(st *flow.State, b *cfg.Block) { it.block(st, b) },
+					OnCall: func(st *flow.State, cl *ast.CallExpr, _ types.Object, _ bool) {
+						if cl == wcall {
+							it.mark(st)
+						}
+					},
+				})
+				if res != nil && it.bad == nil {
+					how = "the servers come from field " + field.Name() + ", every element of which is classified by a covering loop in " + c03fnName(g)
+				}
+			}
+		}
+	}
+	k.fieldOK[field] = how
+	return how
+}
+
+// builtFromClassified: every assignment to the local collection sv yields only classified
+// servers: an empty value, a field classified where its owner is constructed, or
+// append(sv, e…) where a writer of the flag has been called on each e on every path since e
+// was last assigned.
+func (k *c03cls) builtFromClassified(f *flow.Func, sc *c03scope, sv types.Object) (string, *flow.State, ast.Node) {
+	ok := true
+	var appends []*ast.AssignStmt
+	elems := map[*ast.AssignStmt][]types.Object{}
+	c03with(sc, func() {
+		defs := c03defs(f, sv)
+		if len(defs) == 0 {
+			ok = false
+		}
+		for _, d := range defs {
+			if vs, isVS := d.at.(*ast.ValueSpec); isVS && len(vs.Values) == 0 {
+				continue
+			}
+			if d.rhs == nil {
+				ok = false
+				continue
+			}
+			r := ast.Unparen(d.rhs)
+			if tv, has := f.Info.Types[r]; has && tv.IsNil() {
+				continue
+			}
+			switch x := r.(type) {
+			case *ast.CompositeLit:
+				if len(x.Elts) != 0 {
+					ok = false
+				}
+			case *ast.CallExpr:
+				b, isB := f.Callee(x).(*types.Builtin)
+				switch {
+				case isB && b.Name() == "make":
+					// make([]*Server, 0[, n]) only: a non-zero length holds nil/unclassified slots
+					if len(x.Args) < 2 {
+						ok = false
+					} else if tv := f.Info.Types[x.Args[1]]; tv.Value == nil || tv.Value.ExactString() != "0" {
+						ok = false
+					}
+				case isB && b.Name() == "append" && len(x.Args) >= 2 && x.Ellipsis == 0:
+					if id, isID := ast.Unparen(x.Args[0]).(*ast.Ident); !isID || c03obj(f, id) != sv {
+						ok = false
+						break
+					}
+					as, isAs := d.at.(*ast.AssignStmt)
+					if !isAs {
+						ok = false
+						break
+					}
+					for _, e := range x.Args[1:] {
+						id, isID := ast.Unparen(e).(*ast.Ident)
+						if !isID {
+							ok = false
+							break
+						}
+						elems[as] = append(elems[as], c03obj(f, id))
+					}
+					appends = append(appends, as)
+				default:
+					ok = false
+				}
+			case *ast.SelectorExpr:
+				if fv := c03fieldOf(f, x); fv == nil || k.fieldClassified(f, fv) == "" {
+					ok = false
+				}
+			default:
+				ok = false
+			}
+		}
+	})
+	if !ok || len(appends) == 0 {
+		return "", nil, nil
+	}
+	tracked := map[types.Object]bool{}
+	for _, os := range elems {
+		for _, o := range os {
+			tracked[o] = true
+		}
+	}
+	ev := func(o types.Object) string { return "ev:cls:" + c03varID(f, o) }
+	var res *flow.Result
+	c03with(sc, func() {
+		res = analyze(k.c, f, flow.Config{
+			NoHavoc: true,
+			Inline:  sc.inline(),
+			Track:   func(string) bool { return false },
+			OnNode: func(st *flow.State, n ast.Node) {
+				if as, isAs := n.(*ast.AssignStmt); isAs {
+					for _, l := range as.Lhs {
+						if id, isID := ast.Unparen(l).(*ast.Ident); isID && tracked[c03obj(f, id)] {
+							st.Set(ev(c03obj(f, id)), flow.Unknown)
+						}
+					}
+				}
+			},
+			OnCall: func(st *flow.State, cl *ast.CallExpr, callee types.Object, _ bool) {
+				fo, isF := callee.(*types.Func)
+				if !isF || !(k.writers[fo] || k.writers[fo.Origin()]) {
+					return
+				}
+				mark := func(e ast.Expr) {
+					if id, isID := ast.Unparen(e).(*ast.Ident); isID && tracked[c03obj(f, id)] {
+						st.Set(ev(c03obj(f, id)), flow.True)
+					}
+				}
+				if sel, isSel := ast.Unparen(cl.Fun).(*ast.SelectorExpr); isSel {
+					mark(sel.X)
+				}
+				for _, a := range cl.Args {
+					mark(a)
+				}
+			},
+		})
+	})
+	if res == nil {
+		return "", nil, nil
+	}
+	for _, as := range appends {
+		if len(res.At[as]) == 0 {
+			return "", nil, nil
+		}
+		for _, st := range res.At[as] {
+			for _, o := range elems[as] {
+				if !st.Is(ev(o), flow.True) {
+					return "", st, as
+				}
+			}
+		}
+	}
+	return sprintf("the collection is built in %s by %d append(s) of servers that have each been classified before they are appended (other assignments yield empty or construction-classified collections)", c03fnName(f), len(appends)), nil, nil
 }
